@@ -44,7 +44,7 @@ def mon_C01(sc, trace, probes, info):
     out = []
     last = None
     for p in by(probes, 'act'):
-        _, t, turn, due, who = p
+        _, t, turn, due, who = p[:5]
         if last is not None:
             lt, lturn = last
             if t < lt:
@@ -174,6 +174,7 @@ def mon_C04(sc, trace, probes, info):
     started = set()
     triggered = {p[1] for p in by(probes, 'until_true')}
     kinds = {p[1]: p[2] for p in by(probes, 'scope_enter')}
+    enters = {p[1]: p for p in by(probes, 'scope_enter')}
     for i, p in enumerate(probes):
         k = p[0]
         if k == 'scope_exit':
@@ -181,8 +182,15 @@ def mon_C04(sc, trace, probes, info):
             exited[name] = i
             if p[5]:
                 out.append(('scope %r left at %r while its tasks %r are not done' % (name, p[2], p[5]), None))
-            normal = p[3] is None and p[4] == 'done' and not (kinds.get(name) == 'until' and name in triggered)
+            trig = None
+            if kinds.get(name) == 'until':
+                trig = expected_resume(enters[name][3], enters[name][4])
+                if trig == 'n/a':
+                    trig = INF if name not in triggered else -INF
             kids = [t for t, d in dos.items() if d[1] == name]
+            child_failed = any(t in ends and ends[t][1] is not None
+                               and not isinstance(ends[t][1], (CancelTask, GeneratorExit)) for t in kids)
+            normal = p[3] is None and p[4] == 'done' and (trig is None or trig > p[2]) and not child_failed
             if normal:
                 for t in kids:
                     if dos[t][4]:
@@ -398,5 +406,19 @@ def mon_C10(sc, trace, probes, info):
     return out
 
 
-MONITORS = {'C01': mon_C01, 'C03': mon_C03, 'C04': mon_C04, 'C05': mon_C05, 'C07': mon_C07, 'C08': mon_C08,
+def mon_C02(sc, trace, probes, info):
+    """activities that become runnable for the same time run in the order in which they were made runnable"""
+    out = []
+    last = None
+    for p in by(probes, 'act'):
+        t, seq = p[1], p[5]
+        if seq is None:
+            continue
+        if last is not None and last[0] == t and seq < last[1]:
+            out.append(('at time %r the activation scheduled as #%r ran after the one scheduled as #%r' % (t, seq, last[1]), None))
+        last = (t, seq)
+    return out
+
+
+MONITORS = {'C02': mon_C02, 'C01': mon_C01, 'C03': mon_C03, 'C04': mon_C04, 'C05': mon_C05, 'C07': mon_C07, 'C08': mon_C08,
             'C09': mon_C09, 'C10': mon_C10}
